@@ -28,6 +28,10 @@ structure DState where
   stash   : Stash := Stash.empty   -- the script's `GlobalMemoryAllocatorStash`
   raw     : List (Nat × Nat) := [] -- live blocks the detector does not hold (address, user size): acquired with the overloads
                                    -- off, or forgotten by `clearAllAccounting`
+  out     : Diag.OutBuf := Diag.OutBuf.init   -- the detector's report builder (text buffer, `total_leaks_`, malloc-note flag);
+                                   -- meaningful while `dirty` is false
+  dirty   : Bool := false          -- the text buffer holds a failure text or the text of a plain `report`: the harness empties
+                                   -- it (with `startChecking()`) before the next operation that may add text
 deriving Inhabited
 
 /-- the harness parks the switch position between two operations with `saveAndDisableNewDeleteOverloads()` -/
@@ -115,6 +119,17 @@ def reportLines (s : State) (p : Period) (truncated : Bool) : List String :=
     let warn := leaks.any (fun n => n.allocator.allocName == "malloc")
     s!"report total {leaks.length} {if warn then 1 else 0}" ::
       (sortByKey (leaks.map (fun n => (n.addr, [leakLine n])))).flatMap (·.2)
+
+/-- a report asked for again (`rereport`, `plugin refinal`): the builder goes on from where the earlier reports left it;
+    the answer is the text this call appended, as length and hash, then its entries.  A full text buffer is reported as
+    such (the answer may be cut). -/
+def appendedReport (st : State) (base : Nat) (out : Diag.OutBuf) (p : Period) (truncated : Bool) : Diag.OutBuf × Bool × List String :=
+  let leaks := (reportedLeaks st p).map (Node.toLeak base)
+  let o := outReport out leaks
+  if o.buf.text.length + 1 ≥ Gen.Diag.bufferLen then (o, true, ["report full"])
+  else
+    let t := o.buf.text.drop out.buf.text.length
+    (o, false, s!"reporttext {t.length} {hex16 (fnv1a t)}" :: reportLines st p truncated)
 
 def obsResult (key : String) (obs : List (List String)) : Nat :=
   match obs.find? (fun l => l.head? == some key) with
@@ -260,6 +275,13 @@ def modelStepRaw (d : DState) (op : List String) (obs : List (List String)) : DS
     | some p =>
       let truncated := obs.any (fun l => l.take 2 == ["report", "truncated"])
       fin d ("final report" :: reportTextLine d.st p d.base :: reportLines d.st p truncated)
+  | ["plugin", "refinal", n] =>
+    match pluginFinal d.st (n.toNat?.getD 0) with
+    | none => fin d ["final empty"]
+    | some p =>
+      let truncated := obs.any (fun l => l.take 2 == ["report", "truncated"])
+      let r := appendedReport d.st d.base d.out p truncated
+      fin { d with out := r.1, dirty := r.2.1 } ("final report" :: r.2.2)
   | ["plugin", "ignore"] => fin d []
   | ["plugin", "expect", _] => fin d []
   | ["mrp", "create"] =>
@@ -315,6 +337,13 @@ def modelStepRaw (d : DState) (op : List String) (obs : List (List String)) : DS
     | some p =>
       let truncated := obs.any (fun l => l.take 2 == ["report", "truncated"])
       fin d (reportTextLine d.st p d.base :: reportLines d.st p truncated)
+    | none => (d, ["bad-op"])
+  | ["rereport", p] =>
+    match periodOf? p with
+    | some p =>
+      let truncated := obs.any (fun l => l.take 2 == ["report", "truncated"])
+      let r := appendedReport d.st d.base d.out p truncated
+      fin { d with out := r.1, dirty := r.2.1 } r.2.2
     | none => (d, ["bad-op"])
   | ["write", addr, off, b] =>
     match addr.toNat?, off.toNat?, Proto.unhex? b with
@@ -378,8 +407,39 @@ def modelStepRaw (d : DState) (op : List String) (obs : List (List String)) : DS
     | _, _ => (d, ["bad-op"])
   | _ => (d, ["bad-op"])
 
+/-- operations before which the harness empties a dirty text buffer (`clear_text(false)`) -/
+def clearsDirtyText : List String → Bool
+  | "free" :: _ => true
+  | "realloc" :: _ => true
+  | "grealloc" :: _ => true
+  | "grel" :: _ => true
+  | ["stage", "release"] => true
+  | "rereport" :: _ => true
+  | ["plugin", "refinal", _] => true
+  | _ => false
+
+/-- operations that empty the text buffer whatever it holds: `startChecking()` itself, and (before they run) the plain
+    `report` / `plugin final`, which then leave their own text behind -/
+def clearsText : List String → Bool
+  | ["period", "start"] => true
+  | ["plugin", "pre"] => true
+  | "report" :: _ => true
+  | ["plugin", "final", _] => true
+  | _ => false
+
+def leavesText : List String → Bool
+  | "report" :: _ => true
+  | ["plugin", "final", _] => true
+  | _ => false
+
+/-- the detector's text buffer around one operation -/
+def modelStepText (d : DState) (op : List String) (obs : List (List String)) : DState × List String :=
+  let d0 := if clearsText op || (clearsDirtyText op && d.dirty) then { d with out := outClear d.out, dirty := false } else d
+  let r := modelStepRaw d0 op obs
+  if leavesText op || r.2.any (fun l => l.startsWith "fail ") then ({ r.1 with dirty := true }, r.2) else r
+
 def modelStep (d : DState) (op : List String) (obs : List (List String)) : DState × List String :=
-  let r := modelStepRaw d op obs
+  let r := modelStepText d op obs
   let implFails := obs.filter (fun l => l.head? == some "fail")
   if implFails.any (· == ["fail", "lost"]) then (r.1, alignLost implFails r.2) else r
 
